@@ -1,7 +1,470 @@
-(* C02 - park / unpark never loses a wake-up (placeholder while the development is being built) *)
-From Coq Require Import List ZArith.
-Require Import MayV.Rt.ParkModel MayV.Rt.ParkAccept.
+(* C02 - park / unpark never loses a wake-up, in coroutines and in threads.
+
+   Property theorems only: each is closed by `exact` of a lemma proved in Rt/ParkInv*.v, Rt/ParkThm.v,
+   Rt/ParkRefute.v, Rt/ParkThread.v, Rt/ParkAccept.v, and followed by Print Assumptions.
+
+   Model (Rt/ParkModel.v): ONE coroutine and the Park it parks on (the per-coroutine Park of coroutine::park, or
+   - action ANewPark - the Park of a fresh Blocker), its Cancel, the generator parameter, any number of unparkers,
+   cancellers and timer entries, the clock; one transition per shared-memory access of src/park.rs, the cancelled
+   short-cut of yield_with, Cancel::cancel / set_co, the timer callback.  [ReachF] = reachable with the code as it
+   is in /repo ([step true true]); the schedule is arbitrary, so every theorem holds for every client program
+   (any sequence of park / park_timeout / unpark / cancel on the handle) and every interleaving.
+   State components used below: [pstate] = Park.state (the token), [slot] = wait_co holds the coroutine,
+   [kp] = control point of the kernel half (Park::subscribe), [up] = control point of the user half
+   (Park::park_timeout), [un i] / [cn i] / [tm i] = unparker / canceller / timer entry i, [cbit] = cancel bit,
+   [hnd] = timeout_handle.  Ghost: [holder], [wsrc] (who took the coroutine), [tok0], [ctok], [ncall], [tainted].
+
+   What is NOT proved (see props/C02.json "assumptions"): liveness proper.  "Returns instead of blocking" is
+   proved in the safety form of DESIGN 2.2: in no reachable state is the call stuck while a reason to wake it
+   exists (some transition of the implementation is enabled; in the slot: one that takes the coroutine), and
+   Quiescent states have no such call.  That enabled transitions are eventually taken is the fairness of the
+   worker loop / OS scheduler (C01). *)
+From Coq Require Import List ZArith Bool.
+Import ListNotations.
+Require Import MayV.Rt.AtomicDur MayV.Base.BlockerSpec MayV.Rt.ParkModel MayV.Rt.ParkTac MayV.Rt.ParkInv1
+               MayV.Rt.ParkThm MayV.Rt.ParkRefute MayV.Rt.ParkThread MayV.Rt.ParkAccept.
+Open Scope Z_scope.
+
+(* ================================================================================================ *)
+(* (i) single resumption                                                                            *)
+(* ================================================================================================ *)
+
+(* The coroutine is in exactly one place while it is alive, in none once it is gone.  [places] counts:
+   running + in the wait_co slot + entries in run queues + in the hands of the kernel half + taken by the
+   recorded holder (unparker / canceller / timer callback). *)
+Theorem C02_single_resumption :
+  forall s, ReachF s -> places s = (match up s with UDead => 0 | _ => 1 end)%nat.
+Proof. exact single_resumption. Qed.
+Print Assumptions C02_single_resumption.
+
+Theorem C02_exactly_one_place :
+  forall s, ReachF s -> up s <> UDead ->
+  (running s = true  /\ slot s = false /\ rq s = 0%nat /\ kholds (kp s) = false /\ holder s = HNone) \/
+  (running s = false /\ slot s = true  /\ rq s = 0%nat /\ kholds (kp s) = false /\ holder s = HNone) \/
+  (running s = false /\ slot s = false /\ rq s = 1%nat /\ kholds (kp s) = false /\ holder s = HNone) \/
+  (running s = false /\ slot s = false /\ rq s = 0%nat /\ kholds (kp s) = true  /\ holder s = HNone) \/
+  (running s = false /\ slot s = false /\ rq s = 0%nat /\ kholds (kp s) = false /\ held (holder s) = true).
+Proof. exact exactly_one_place. Qed.
+Print Assumptions C02_exactly_one_place.
+
+(* whoever has taken the coroutine out of the slot and not yet passed it on is THE recorded holder:
+   `take` hands it to exactly one of unparker / canceller / timer *)
+Theorem C02_taken_by_exactly_one :
+  forall s, ReachF s ->
+  (forall i, un s i = NHold -> holder s = HUn i) /\
+  (forall i, cn s i = CHold -> holder s = HCn i) /\
+  (forall i, tm s i = TmHold -> holder s = HTm i).
+Proof. exact taken_by_exactly_one. Qed.
+Print Assumptions C02_taken_by_exactly_one.
+
+Theorem C02_holders_unique :
+  forall s, ReachF s ->
+  (forall i j, un s i = NHold -> un s j = NHold -> i = j) /\
+  (forall i j, cn s i = CHold -> cn s j = CHold -> i = j) /\
+  (forall i j, tm s i = TmHold -> tm s j = TmHold -> i = j) /\
+  (forall i j, un s i = NHold -> cn s j = CHold -> False) /\
+  (forall i j, un s i = NHold -> tm s j = TmHold -> False) /\
+  (forall i j, cn s i = CHold -> tm s j = TmHold -> False).
+Proof. exact holders_unique. Qed.
+Print Assumptions C02_holders_unique.
+
+Theorem C02_holder_is_actor :
+  forall s, ReachF s ->
+  match holder s with
+  | HUn i => un s i = NHold
+  | HCn i => cn s i = CHold
+  | HTm i => tm s i = TmHold
+  | HNone => (forall i, un s i <> NHold) /\ (forall i, cn s i <> CHold) /\ (forall i, tm s i <> TmHold)
+  end.
+Proof. exact holder_is_actor. Qed.
+Print Assumptions C02_holder_is_actor.
+
+(* ================================================================================================ *)
+(* (ii) no lost wake-up                                                                             *)
+(* ================================================================================================ *)
+
+(* The coroutine is in the slot and the token is set (an unpark happened after the previous park
+   returned and nobody consumed it): then the kernel half has not yet done its re-check of the token
+   (it is between wait_co.store and state.load / its take), or an unparker is between its
+   state.swap(true) and its wait_co.take(). *)
+Theorem C02_no_lost_wakeup :
+  forall s, ReachF s -> slot s = true -> pstate s = true ->
+  krecheck (kp s) = true \/ exists i b, un s i = NTake b.
+Proof. exact no_lost_wakeup. Qed.
+Print Assumptions C02_no_lost_wakeup.
+
+(* that unparker's next access is enabled, takes the coroutine out of the slot and makes him the holder *)
+Theorem C02_unparker_takes :
+  forall s i b, un s i = NTake b -> slot s = true ->
+  exists s', stepF s (AUnTake i) = Some s' /\ slot s' = false /\ un s' i = NHold /\ holder s' = HUn i.
+Proof. exact unparker_takes. Qed.
+Print Assumptions C02_unparker_takes.
+
+(* that kernel half, left alone, takes the coroutine back within three accesses and has it in its hands
+   (it then resumes it: KSgoff/KFgoff true -> KSrun/KFrun) *)
+Theorem C02_kernel_self_wake :
+  forall s, krecheck (kp s) = true -> slot s = true -> pstate s = true ->
+  exists n s', (n <= 3)%nat /\ run true true s (repeat AK n) = Some s' /\ slot s' = false /\ kholds (kp s') = true.
+Proof. exact kernel_self_wake. Qed.
+Print Assumptions C02_kernel_self_wake.
+
+(* Quiescent: the coroutine is not running and in no run queue, the kernel half is through, no unpark /
+   cancel call is in progress, no timer entry is due or popped.  Only the client (a new park / unpark /
+   cancel call) and the clock can move. *)
+Theorem C02_quiescent_no_token :
+  forall s, ReachF s -> Quiescent s -> ~ (slot s = true /\ pstate s = true).
+Proof. exact quiescent_no_token. Qed.
+Print Assumptions C02_quiescent_no_token.
+
+(* Quiescent is exactly "no transition of the implementation is enabled" for states with the coroutine in
+   the slot ([internal]: every action but the client's APark / AAway / AExit / ANewPark / AUnSwap / ACnOr,
+   the clock ATick and the house-keeping ATDrop / ADrop) *)
+Theorem C02_quiescent_stuck :
+  forall s, Quiescent s -> forall a, internal a = true -> stepF s a = None.
+Proof. exact quiescent_stuck. Qed.
+Print Assumptions C02_quiescent_stuck.
+
+Theorem C02_stuck_quiescent :
+  forall s, ReachF s -> slot s = true -> (forall a, internal a = true -> stepF s a = None) -> Quiescent s.
+Proof. exact stuck_quiescent. Qed.
+Print Assumptions C02_stuck_quiescent.
+
+(* Progress form, for EVERY control point of a park call (before, after or concurrently with the unpark):
+   the slot is the only place where a call can rest ... *)
+Theorem C02_only_the_slot_rests :
+  forall s, ReachF s -> in_park (up s) = true -> slot s = false ->
+  exists a, internal a = true /\ exists s', stepF s a = Some s'.
+Proof. exact only_the_slot_rests. Qed.
+Print Assumptions C02_only_the_slot_rests.
+
+(* ... and with the token set it does not rest there either *)
+Theorem C02_park_with_token_not_stuck :
+  forall s, ReachF s -> pstate s = true -> in_park (up s) = true ->
+  exists a, internal a = true /\ exists s', stepF s a = Some s'.
+Proof. exact park_with_token_not_stuck. Qed.
+Print Assumptions C02_park_with_token_not_stuck.
+
+(* ---- time-out ---- *)
+
+(* a coroutine in the slot in a timed park has its timer entry armed or popped (about to fire), or the
+   kernel half is doing the time-out itself (the repair of F8) *)
+Theorem C02_no_lost_timeout :
+  forall s, ReachF s -> slot s = true -> armed_of (ud s) <> None ->
+  exists i, hnd s = Some i /\
+    ((tm s i = TmArmed \/ tm s i = TmFired) \/ kp s = KStake \/ (kp s = KChk /\ exists t, kdl s = Some t /\ t <= now s)).
+Proof. exact no_lost_timeout. Qed.
+Print Assumptions C02_no_lost_timeout.
+
+(* every park_timeout(Some d) is a timed park (AtomicDuration after the repair of F3) *)
+Theorem C02_some_duration_is_armed :
+  forall d, 0 <= d -> armed_of (Some d) <> None.
+Proof. exact armed_of_some. Qed.
+Print Assumptions C02_some_duration_is_armed.
+
+Theorem C02_quiescent_no_deadline :
+  forall s, ReachF s -> Quiescent s -> slot s = true -> armed_of (ud s) <> None ->
+  exists i, hnd s = Some i /\ tm s i = TmArmed /\ now s < tdl s i.
+Proof. exact quiescent_no_deadline. Qed.
+Print Assumptions C02_quiescent_no_deadline.
+
+Theorem C02_park_past_deadline_not_stuck :
+  forall s i, ReachF s -> slot s = true -> hnd s = Some i -> tdl s i <= now s ->
+  exists a, internal a = true /\ exists s', stepF s a = Some s'.
+Proof. exact park_past_deadline_not_stuck. Qed.
+Print Assumptions C02_park_past_deadline_not_stuck.
+
+(* before the repair of F8 (subscribe without the deadline self-check: [step false true]) the time-out is lost *)
+Theorem C02_quiescent_no_deadline_refuted_without_fixF8 :
+  ~ (forall s, Reach false true s -> Quiescent s -> slot s = true -> armed_of (ud s) <> None ->
+               exists i, hnd s = Some i /\ tm s i = TmArmed /\ now s < tdl s i).
+Proof. exact quiescent_no_deadline_refuted_without_fixF8. Qed.
+Print Assumptions C02_quiescent_no_deadline_refuted_without_fixF8.
+
+(* ---- cancel ---- *)
+
+(* PARTIAL: premise [tainted s = false] - no kernel half of an EARLIER Blocker of this coroutine, still in
+   flight, has overwritten the registration in Cancel.co (ghost [tainted], set by AStaleSetco).  Without
+   the premise the statement is false for the code as it is: C02_quiescent_no_cancel_refuted. *)
+Theorem C02_no_lost_cancel_partial :
+  forall s, ReachF s -> slot s = true -> cbit s = true -> tainted s = false ->
+  match kp s with
+  | KChk | KStake | KSload | KFtake | KSetco | KC3 => True
+  | KCchk | KC1 | KC2 => cco s = CThis \/ exists i, cn s i = CTake
+  | _ => (exists i, cn s i = CTake) \/ (cco s = CThis /\ exists i, cn s i = CTakeCo) end.
+Proof. exact no_lost_cancel_partial. Qed.
+Print Assumptions C02_no_lost_cancel_partial.
+
+Theorem C02_quiescent_no_cancel_partial :
+  forall s, ReachF s -> Quiescent s -> ~ (slot s = true /\ cbit s = true /\ tainted s = false).
+Proof. exact quiescent_no_cancel_partial. Qed.
+Print Assumptions C02_quiescent_no_cancel_partial.
+
+Theorem C02_park_cancelled_not_stuck_partial :
+  forall s, ReachF s -> cbit s = true -> tainted s = false -> in_park (up s) = true ->
+  exists a, internal a = true /\ exists s', stepF s a = Some s'.
+Proof. exact park_cancelled_not_stuck_partial. Qed.
+Print Assumptions C02_park_cancelled_not_stuck_partial.
+
+(* the code as it is loses a cancel after a stale set_co (potential defect, replayed on the real code) *)
+Theorem C02_quiescent_no_cancel_refuted :
+  ~ (forall s, ReachF s -> Quiescent s -> ~ (slot s = true /\ cbit s = true)).
+Proof. exact quiescent_no_cancel_refuted. Qed.
+Print Assumptions C02_quiescent_no_cancel_refuted.
+
+(* ================================================================================================ *)
+(* (iii) unpark before park                                                                         *)
+(* ================================================================================================ *)
+
+(* a park call that starts with the token set ([tok0]) never reaches the suspending part of park_timeout
+   ([susp] is set by the yield): while inside the call it is at the first check_park *)
+Theorem C02_token_first_never_suspends :
+  forall s, ReachF s -> tok0 s = true ->
+  susp s = false /\ (in_park (up s) = true -> (up s = UCp1Load /\ pstate s = true) \/ up s = UCp1Store).
+Proof. exact token_first_never_suspends. Qed.
+Print Assumptions C02_token_first_never_suspends.
+
+(* it returns Ok within two accesses of its own, having consumed the token *)
+Theorem C02_token_first_returns_ok :
+  forall s, ReachF s -> tok0 s = true -> in_park (up s) = true ->
+  exists n s', (n <= 2)%nat /\ run true true s (repeat AU n) = Some s' /\
+               up s' = UIdle /\ lastv s' = Some VOk /\ susp s' = false /\ pstate s' = false.
+Proof. exact token_first_returns_ok. Qed.
+Print Assumptions C02_token_first_returns_ok.
+
+Theorem C02_token_first_verdict :
+  forall s, ReachF s -> tok0 s = true -> in_park (up s) = false -> lastv s = Some VOk.
+Proof. exact token_first_verdict. Qed.
+Print Assumptions C02_token_first_verdict.
+
+(* ================================================================================================ *)
+(* (iv) verdicts of a park on a fresh Blocker; (v) the shared per-coroutine Park                    *)
+(* ================================================================================================ *)
+
+(* [park_returns s s' v]: [stepF s AU = Some s'] is the transition with which park_timeout returns v.
+   [fresh s]: first call on this Park object (ncall <= 1; ANewPark = Blocker::new resets the count). *)
+
+(* Ok only with a token consumed by this call (by the returning access of the first check_park, or by the
+   check_park after the resume: ghost [ctok]) *)
+Theorem C02_verdict_ok_fresh :
+  forall s s', ReachF s -> fresh s -> park_returns s s' VOk ->
+  (pstate s = true /\ (up s = UCp1Store \/ up s = UCp1Swap)) \/ (up s = UPara /\ ctok s = true).
+Proof. exact verdict_ok_fresh. Qed.
+Print Assumptions C02_verdict_ok_fresh.
+
+(* Timeout only at or after call time + armed duration ... *)
+Theorem C02_verdict_timeout_fresh :
+  forall s s', ReachF s -> fresh s -> park_returns s s' VTimeout ->
+  exists c, call_deadline s = Some c /\ c <= now s'.
+Proof. exact verdict_timeout_fresh. Qed.
+Print Assumptions C02_verdict_timeout_fresh.
+
+(* ... hence at or after call time + the duration asked for (up to AtomicDuration's cap of about 292 years) *)
+Theorem C02_verdict_timeout_fresh_requested :
+  forall s s' d, ReachF s -> fresh s -> park_returns s s' VTimeout ->
+  ud s = Some d -> ceil_ms d <= CAP -> tcall s + d <= now s'.
+Proof. exact verdict_timeout_fresh_requested. Qed.
+Print Assumptions C02_verdict_timeout_fresh_requested.
+
+(* Canceled only if the cancel bit of the coroutine is set (fresh or not); the cancel panic inside park likewise *)
+Theorem C02_verdict_canceled :
+  forall s s', ReachF s -> park_returns s s' VCanceled -> up s = UPara /\ cbit s = true.
+Proof. exact verdict_canceled. Qed.
+Print Assumptions C02_verdict_canceled.
+
+Theorem C02_abort_needs_cancel :
+  forall s s', stepF s AU = Some s' -> up s <> UDead -> up s' = UDead -> cbit s = true.
+Proof. exact abort_needs_cancel. Qed.
+Print Assumptions C02_abort_needs_cancel.
+
+(* (v) any Park: the only additional behaviour is the spurious return caused by an unparker / a timer entry
+   of an EARLIER call on the same Park object *)
+Theorem C02_verdict_ok :
+  forall s s', ReachF s -> park_returns s s' VOk ->
+  (pstate s = true /\ (up s = UCp1Store \/ up s = UCp1Swap)) \/
+  (up s = UPara /\ ctok s = true) \/
+  (up s = UPara /\ wsrc s = WUn true /\ (2 <= ncall s)%nat).
+Proof. exact verdict_ok. Qed.
+Print Assumptions C02_verdict_ok.
+
+Theorem C02_verdict_timeout :
+  forall s s', ReachF s -> park_returns s s' VTimeout ->
+  up s = UPara /\
+  ((exists c, call_deadline s = Some c /\ c <= now s') \/ (wsrc s = WTm true /\ (2 <= ncall s)%nat)).
+Proof. exact verdict_timeout. Qed.
+Print Assumptions C02_verdict_timeout.
+
+Theorem C02_spurious_needs_earlier_call :
+  forall s, ReachF s -> (wsrc s = WUn true \/ wsrc s = WTm true) -> (2 <= ncall s)%nat.
+Proof. exact spurious_needs_earlier_call. Qed.
+Print Assumptions C02_spurious_needs_earlier_call.
+
+Theorem C02_stale_unparker_needs_consumed_token :
+  forall s i, ReachF s -> un s i = NTake true -> (1 <= nclr s)%nat.
+Proof. exact stale_unparker_needs_consumed_token. Qed.
+Print Assumptions C02_stale_unparker_needs_consumed_token.
+
+(* ---- refinement of the abstract Blocker token used by the upper layers (Base/BlockerSpec.v) ---- *)
+
+(* every transition of the model is the Blocker-token event [park_ev] labels it with (unpark = the
+   state.swap(true); resume = the clearing access of check_park), or changes nothing of the abstraction;
+   [abs s] = (token, deadline of the call in progress) *)
+Theorem C02_park_refines_blocker :
+  forall s a s', ReachF s -> stepF s a = Some s' ->
+  match a with
+  | ANewPark _ => abs s' = binit
+  | _ => match park_ev s a with
+         | Some e => bstep (now s) (cbit s) (abs s) e = Some (abs s')
+         | None => abs s' = abs s end
+  end.
+Proof. exact park_refines_blocker. Qed.
+Print Assumptions C02_park_refines_blocker.
+
+(* on a fresh Blocker the resume event is never BSpurious: the verdict about to be reported is justified
+   by the abstract object (token / deadline of the call / cancel bit) at the linearisation point *)
+Theorem C02_fresh_park_never_spurious :
+  forall s, ReachF s -> fresh s -> up s = UCp2Store \/ up s = UCp2Swap -> justified s = true.
+Proof. exact fresh_park_never_spurious. Qed.
+Print Assumptions C02_fresh_park_never_spurious.
+
+Theorem C02_spurious_resume_sources :
+  forall s, ReachF s -> up s = UCp2Store \/ up s = UCp2Swap -> justified s = false ->
+  (wsrc s = WUn true \/ wsrc s = WTm true) /\ (2 <= ncall s)%nat.
+Proof. exact spurious_resume_sources. Qed.
+Print Assumptions C02_spurious_resume_sources.
+
+(* the verdict is not touched between that linearisation point and the return *)
+Theorem C02_verdict_stable :
+  forall s a s', ReachF s -> stepF s a = Some s' ->
+  match up s with UCp2Store | UCp2Swap | URm => True | _ => False end -> para s' = para s.
+Proof. exact verdict_stable. Qed.
+Print Assumptions C02_verdict_stable.
+
+(* ================================================================================================ *)
+(* Park::drop (the repair of F12)                                                                   *)
+(* ================================================================================================ *)
+
+Theorem C02_drop_never_blocked :
+  forall s, ReachF s -> dropping s = true -> wk s = true -> exists s', stepF s AK = Some s'.
+Proof. exact drop_never_blocked. Qed.
+Print Assumptions C02_drop_never_blocked.
+
+Theorem C02_drop_never_blocked_refuted_without_fixF12 :
+  ~ (forall s, Reach true false s -> dropping s = true -> wk s = true -> exists s', step true false s AK = Some s').
+Proof. exact drop_never_blocked_refuted_without_fixF12. Qed.
+Print Assumptions C02_drop_never_blocked_refuted_without_fixF12.
+
+(* ================================================================================================ *)
+(* threads: ThreadPark (src/sync/blocking.rs), token + block under one mutex                        *)
+(* ================================================================================================ *)
+
+Theorem C02_threadpark_refines_blocker :
+  forall t a t', tpstep t a = Some t' ->
+  match tp_ev t a with
+  | Some e => bstep (tnow t) false (tabs t) e = Some (tabs t')
+  | None => tabs t' = tabs t
+  end.
+Proof. exact threadpark_refines_blocker. Qed.
+Print Assumptions C02_threadpark_refines_blocker.
+
+Theorem C02_threadpark_ok_needs_token :
+  forall t t', tpstep t (TpLeave true) = Some t' -> ttok t = true /\ ttok t' = false.
+Proof. exact threadpark_ok_needs_token. Qed.
+Print Assumptions C02_threadpark_ok_needs_token.
+
+Theorem C02_threadpark_timeout_not_early :
+  forall t t', tpstep t (TpLeave false) = Some t' -> exists dl, twait t = Some (Some dl) /\ dl <= tnow t /\ ttok t' = false.
+Proof. exact threadpark_timeout_not_early. Qed.
+Print Assumptions C02_threadpark_timeout_not_early.
+
+(* no lost wake-up / time-out for a parked thread: whenever a resume is due the owner can leave *)
+Theorem C02_threadpark_wake_enabled :
+  forall t, wake_due (tnow t) false (tabs t) = true ->
+  (exists t', tpstep t (TpLeave true) = Some t') \/ (exists t', tpstep t (TpLeave false) = Some t').
+Proof. exact threadpark_wake_enabled. Qed.
+Print Assumptions C02_threadpark_wake_enabled.
+
+Theorem C02_threadpark_token_first :
+  forall t d t1, ttok t = true -> tpstep t (TpEnter d) = Some t1 -> exists t2, tpstep t1 (TpLeave true) = Some t2.
+Proof. exact threadpark_token_first. Qed.
+Print Assumptions C02_threadpark_token_first.
+
+(* ================================================================================================ *)
+(* tie: every state along an accepted trace of the real code is a reachable state of the model      *)
+(* ================================================================================================ *)
+
 Theorem C02_accepted_traces_are_model_runs :
   forall tr x x', MReach (ms x) -> accept_all x tr = Some x' -> MReach (ms x').
 Proof. exact accept_all_reach. Qed.
 Print Assumptions C02_accepted_traces_are_model_runs.
+
+(* ================================================================================================ *)
+(* non-vacuity                                                                                      *)
+(* ================================================================================================ *)
+
+Example C02_ex_token_unparker :
+  exists s, ReachF s /\ slot s = true /\ pstate s = true /\ kp s = KIdle /\ un s 0%nat = NTake false.
+Proof. exact ex_token_unparker. Qed.
+
+Example C02_ex_token_kernel :
+  exists s, ReachF s /\ slot s = true /\ pstate s = true /\ kp s = KSload /\ forall i, un s i = NIdle.
+Proof. exact ex_token_kernel. Qed.
+
+Example C02_ex_quiescent_parked :
+  exists s, ReachF s /\ Quiescent s /\ slot s = true /\ pstate s = false /\ cbit s = false.
+Proof. exact ex_quiescent_parked. Qed.
+
+Example C02_ex_quiescent_timed :
+  exists s, ReachF s /\ Quiescent s /\ slot s = true /\ armed_of (ud s) <> None /\
+            hnd s = Some 0%nat /\ tm s 0%nat = TmArmed /\ now s < tdl s 0%nat.
+Proof. exact ex_quiescent_timed. Qed.
+
+Example C02_ex_deadline_passed :
+  exists s, ReachF s /\ slot s = true /\ hnd s = Some 0%nat /\ tm s 0%nat = TmArmed /\ tdl s 0%nat <= now s.
+Proof. exact ex_deadline_passed. Qed.
+
+Example C02_ex_cancel_pending :
+  exists s, ReachF s /\ slot s = true /\ cbit s = true /\ tainted s = false /\ kp s = KIdle /\
+            cco s = CThis /\ cn s 0%nat = CTakeCo.
+Proof. exact ex_cancel_pending. Qed.
+
+Example C02_ex_token_first : exists s, ReachF s /\ tok0 s = true /\ in_park (up s) = true.
+Proof. exact ex_token_first. Qed.
+
+Example C02_ex_ok_fresh :
+  exists s, ReachF s /\ fresh s /\ up s = UPara /\ ctok s = true /\ exists s', park_returns s s' VOk.
+Proof. exact ex_ok_fresh. Qed.
+
+Example C02_ex_timeout_fresh :
+  exists s, ReachF s /\ fresh s /\ ud s = Some 1000000 /\ exists s', park_returns s s' VTimeout.
+Proof. exact ex_timeout_fresh. Qed.
+
+Example C02_ex_canceled_fresh :
+  exists s, ReachF s /\ fresh s /\ cbit s = true /\ exists s', park_returns s s' VCanceled.
+Proof. exact ex_canceled_fresh. Qed.
+
+(* the spurious returns of the shared per-coroutine Park are real (why (iv) is about fresh Blockers only) *)
+Example C02_ex_spurious_ok_on_shared_park :
+  exists s, ReachF s /\ up s = UPara /\ ctok s = false /\ wsrc s = WUn true /\ ncall s = 2%nat /\
+            exists s', park_returns s s' VOk.
+Proof. exact spurious_ok_on_shared_park. Qed.
+
+Example C02_ex_spurious_timeout_on_shared_park :
+  exists s, ReachF s /\ up s = UPara /\ ud s = None /\ wsrc s = WTm true /\ ncall s = 2%nat /\
+            exists s', park_returns s s' VTimeout.
+Proof. exact spurious_timeout_on_shared_park. Qed.
+
+(* the lost time-out before the repair of F8, the blocked drop before the repair of F12, and the cancel
+   lost by the code as it is: concrete reachable states *)
+Example C02_ex_lost_timeout_without_fixF8 :
+  exists s, Reach false true s /\ Quiescent s /\ slot s = true /\ armed_of (ud s) <> None /\
+            exists i, hnd s = Some i /\ tm s i = TmDone /\ tdl s i < now s.
+Proof. exact lost_timeout_without_fixF8. Qed.
+
+Example C02_ex_drop_blocked_without_fixF12 :
+  exists s, Reach true false s /\ dropping s = true /\ wk s = true /\
+            step true false s AK = None /\ step true false s ADrop = Some s /\ up s = UDead.
+Proof. exact drop_blocked_without_fixF12. Qed.
+
+Example C02_ex_cancel_lost_after_stale_set_co :
+  exists s, ReachF s /\ Quiescent s /\ slot s = true /\ cbit s = true /\ tainted s = true /\ ccheck s = true.
+Proof. exact cancel_lost_after_stale_set_co. Qed.
